@@ -61,6 +61,8 @@ def applicable_edits(sc, call):
                 edits.append("to-face-to-face")
         if fn in STENCIL:
             edits += ["boundary-unknown", "fill-nonnumeric", "fill-object"]
+        if fn in ("cumsum", "cumint"):
+            edits += ["boundary-unknown", "fill-nonnumeric"]
     if fn == "get_metric":
         edits.append("axis-missing")
     if fn == "pad" and isinstance(call.get("da"), str):
@@ -128,10 +130,14 @@ def prepare(case):
                 t[a] = M.default_target(list(gcoords[a]), pos[a], None)
         return pos, t
 
-    if edit in ("boundary-unknown", "fill-nonnumeric", "fill-object") and fn in STENCIL:
+    CUMSUM_PADS = {("center", "left"), ("center", "outer"), ("right", "center"), ("inner", "center")}
+    if edit in ("boundary-unknown", "fill-nonnumeric", "fill-object") and fn in STENCIL + ["cumsum", "cumint"]:
         # the rule must be in force for an axis the call pads
         pos, t = targets()
-        padded = [a for a in axes if M.needs_boundary(by_n[a], pos[a], t[a])]
+        if fn in STENCIL:
+            padded = [a for a in axes if M.needs_boundary(by_n[a], pos[a], t[a])]
+        else:
+            padded = [a for a in axes if (pos[a], t[a]) in CUMSUM_PADS]
         if not padded:
             return None
         a = pick(padded, k)
